@@ -496,7 +496,7 @@ class Wrapc(util.WrapperMixin):
             # No need for wrapper with C.
             # Use struct definition in user's header from cxx_header.
             return
-        if node.wrap.c is False:
+        if not node.wrap.c:
             return
         self.log.write("struct {1.name}\n".format(self, node))
         cname = node.typemap.c_type
